@@ -26,6 +26,7 @@ FOCI = {
     "N": "a change outside the two handler modules: filestore.py (NativeFilestore operations, path handling, error codes, checksum reading loop), crc.py, mib.py (tables, lookups, defaults, fault handler table), request.py, user.py, handler/common.py, handler/defs.py, exceptions.py - a place a reviewer of a 'handler' change would not look at",
     "O": "a change that only shows for unusual but legal orders of API calls: get_next_packet when nothing is queued, state_machine before any request or after completion, reset() in the middle of a transaction or twice, cancel_request twice or after completion, a put request right after reset, queries of the handler's public properties (state, step, progress, transaction_id, num_packets_ready) between calls",
     "P": "a change that needs an extreme but legal configuration value to show: a limit of 1 or of several hundred, a timer interval of a millisecond or of days, a maximum packet length barely above the fixed PDU overhead, a segment length of 1 byte or far larger than the file, a very long file name or many messages to user / options in the Metadata PDU, sequence numbers at the top of their range",
+    "Q": "a change that only shows for unusual but legal *content* of requests or PDUs: binary or non-ASCII file names and messages to user, empty or maximal-length (255 byte) fields, options / TLVs in the Metadata or Finished PDU (filestore requests and responses, flow label, fault handler overrides, fault location), the large-file flag, segment metadata in File Data PDUs, reserved or rarely used enumeration values that still parse",
     "D": "a boundary-value problem that needs an unusual but legal configuration or input (entity-id or sequence-number width, CRC flag, checksum type, file size relative to segment length or packet length, limit of 1, zero-length or maximum-length field, large-file flag)",
 }
 for pid in sys.argv[1:]:
